@@ -69,7 +69,7 @@ static void prime_suite(int full) {
   callf("mpz_probab_prime_p", 0, 25); callf("mpz_probab_prime_p", 0, 5 + (int)rnd_below(40));
   callf("mpz_probable_prime_p", 0, 0, 25 + (int)rnd_below(10), (uint64_t)(rnd_below(2) ? 0 : rnd_below(3000)));
   callf("mpz_likely_prime_p", 0, 0, (uint64_t)(rnd_below(2) ? 0 : rnd_below(3000)));
-  callf("mpz_miller_rabin", 0, 5 + (int)rnd_below(25), 0);
+  callf("mpz_miller_rabin", 0, 5 + (int)rnd_below(25), 0); callf("mpz_millerrabin", 0, 5 + (int)rnd_below(25));
   if (full) { callf("mpz_nextprime", 1, 0); callf("mpz_next_prime_candidate", 1, 0, 0); callf("mpz_set", 1, 0); callf("mpz_nextprime", 1, 1); }
 }
 void drv_c16_prime(int tier, unsigned long seed, const char *extra) {
